@@ -196,6 +196,10 @@ pub proof fn lemma_list_untouched(slots: Map<nat, SlotW>, slots1: Map<nat, SlotW
         assert(slots1.dom().contains(l[i]));
         assert(slots1[l[i]] == slots[l[i]]);
     }
+    // the second conjunct spelled out as well (re-folding the opaque predicate from "the same quantifier" was flaky)
+    assert forall|i: int, j: int| 0 <= i < j < l.len() implies l[i] != l[j] by {
+        assert(slots.dom().contains(l[i]));
+    }
 }
 /// members of a free list are Free slots of that class; any other slot is on no such list
 pub proof fn lemma_not_member(slots: Map<nat, SlotW>, l: Seq<nat>, c: int, o: nat)
